@@ -200,7 +200,7 @@ func c03(r *hx.Run) {
 		tag    string
 		e      *histEnum
 		client protocol.Client // nil: the single-version client
-		delta  uint64     // 0: the delta of the single-version client
+		delta  uint64          // 0: the delta of the single-version client
 	}
 	var phases []phase
 	// A: creates are part of the alphabet (no-create, late-create, several creates); depth 3
@@ -212,8 +212,11 @@ func c03(r *hx.Run) {
 	// D: other base-create variants and key types / hash algorithm, reduced alphabet depth 2 after the create
 	for _, kt := range fx.KeyTypes {
 		for _, code := range []uint{fx.SHA256, fx.SHA512} {
-			for _, variant := range []string{"ok", "invalid", "applyfails"} {
+			for _, variant := range []string{"ok", "invalid", "applyfails", "alias"} {
 				if kt == fx.Ed25519 && code == fx.SHA256 && variant == "ok" {
+					continue
+				}
+				if variant == "alias" && !(kt == fx.Ed25519 && code == fx.SHA256) {
 					continue
 				}
 				if r.Tier == "quick" && !(kt == fx.Ed25519 || (variant == "ok" && code == fx.SHA256) || (kt == fx.P256)) {
